@@ -136,7 +136,7 @@ func isConfigFile(name string) bool {
 
 type lineMut struct {
 	class, descr, text string
-	drop, dup      bool
+	drop, dup          bool
 }
 
 func splitIndent(line string) (string, []string) {
@@ -386,7 +386,99 @@ func xmlMutations(text string) []lineMut {
 		}
 	}
 	walk(root, "")
+	// address-groups (PAN-OS) that are members of themselves: 1-cycles and 2-cycles of
+	// single-member groups
+	member := func(name string) []*xnode {
+		return []*xnode{{start: xml.StartElement{Name: xml.Name{Local: "static"}},
+			children: []*xnode{{start: xml.StartElement{Name: xml.Name{Local: "member"}}, text: name}}}}
+	}
+	nameOf := func(n *xnode) string {
+		for _, a := range n.start.Attr {
+			if a.Name.Local == "name" {
+				return a.Value
+			}
+		}
+		return ""
+	}
+	var cyc func(n *xnode)
+	cyc = func(n *xnode) {
+		for _, c := range n.children {
+			if c.start.Name.Local == "address-group" {
+				es := c.children
+				for i, e := range es {
+					if nameOf(e) == "" {
+						continue
+					}
+					old := e.children
+					e.children = member(nameOf(e))
+					emit("xml-groupcycle", "1-cycle "+nameOf(e))
+					e.children = old
+					if i+1 < len(es) && nameOf(es[i+1]) != "" {
+						f := es[i+1]
+						oe, of := e.children, f.children
+						e.children, f.children = member(nameOf(f)), member(nameOf(e))
+						emit("xml-groupcycle", "2-cycle "+nameOf(e)+","+nameOf(f))
+						e.children, f.children = oe, of
+					}
+				}
+			}
+			cyc(c)
+		}
+	}
+	cyc(root)
 	return out
+}
+
+// ---------------------------------------------------------------- derived companion files
+
+type companion struct{ descr, main, comp string }
+
+// keepLines filters the lines of a file.
+func keepLines(text string, keep func(trimmed, line string) bool) string {
+	var out []string
+	for _, l := range strings.Split(text, "\n") {
+		if keep(strings.TrimSpace(l), l) {
+			out = append(out, l)
+		}
+	}
+	return strings.Join(out, "\n")
+}
+
+// companionVariants: (main, companion) pairs derived from the Netspoc code of a test.
+func companionVariants(typ, orig string) []companion {
+	res := []companion{{"copy", orig, orig}}
+	switch typ {
+	case "Linux":
+		isRule := func(t string) bool { return strings.HasPrefix(t, "-A ") }
+		noRules := keepLines(orig, func(t, _ string) bool { return !isRule(t) })
+		onlyDrop := keepLines(orig, func(t, _ string) bool { return !isRule(t) || strings.HasSuffix(t, "-j DROP") })
+		// [APPEND] behind the chain declarations of every table
+		var app []string
+		lines := strings.Split(orig, "\n")
+		for i, l := range lines {
+			app = append(app, l)
+			t := strings.TrimSpace(l)
+			if strings.HasPrefix(t, ":") && (i+1 == len(lines) || !strings.HasPrefix(strings.TrimSpace(lines[i+1]), ":")) {
+				app = append(app, "[APPEND]")
+			}
+		}
+		appended := strings.Join(app, "\n")
+		res = append(res,
+			companion{"main without rules, companion = original", noRules, orig},
+			companion{"main only DROP rules, companion = original", onlyDrop, orig},
+			companion{"main without rules, companion = original with [APPEND]", noRules, appended},
+			companion{"main only DROP rules, companion = original with [APPEND]", onlyDrop, appended},
+			companion{"companion without rules", orig, noRules},
+			companion{"companion only DROP rules", orig, onlyDrop},
+			companion{"companion = original with [APPEND]", orig, appended})
+	case "ASA", "IOS":
+		noSub := keepLines(orig, func(_, l string) bool { return !strings.HasPrefix(l, " ") })
+		res = append(res,
+			companion{"companion with [APPEND]", orig, "[APPEND]\n" + orig},
+			companion{"main without sub commands, companion = original", noSub, orig},
+			companion{"companion without sub commands", orig, noSub})
+	}
+	return res
 }
 
 // ---------------------------------------------------------------- the family
@@ -408,18 +500,18 @@ func drcCases(b *baseCase, mk func() map[string]string, class, mut string, emit 
 		return &c20Case{Prog: "drc", Args: []string{"-q", "device", "code/router"}, Files: mk(), Type: typ, Test: test, Mut: mut + " pos=A", Class: class}
 	})
 	emit(class, func() *c20Case {
-	files := mk()
-	f2 := cloneFiles(files)
-	// type of FILE2 comes from FILE2.info (device.info or ipv6/device.info)
-	for n, v := range files {
-		switch n {
-		case "code/router.info":
-			f2["device.info"] = v
-		case "code/ipv6/router.info":
-			f2["ipv6/device.info"] = v
+		files := mk()
+		f2 := cloneFiles(files)
+		// type of FILE2 comes from FILE2.info (device.info or ipv6/device.info)
+		for n, v := range files {
+			switch n {
+			case "code/router.info":
+				f2["device.info"] = v
+			case "code/ipv6/router.info":
+				f2["ipv6/device.info"] = v
+			}
 		}
-	}
-	return &c20Case{Prog: "drc", Args: []string{"-q", "code/router", "device"}, Files: f2, Type: typ, Test: test, Mut: mut + " pos=B", Class: class}
+		return &c20Case{Prog: "drc", Args: []string{"-q", "code/router", "device"}, Files: f2, Type: typ, Test: test, Mut: mut + " pos=B", Class: class}
 	})
 }
 
@@ -548,6 +640,21 @@ func enumerate(bases []baseCase, emit emitFn) {
 				}, m.class, name+" "+m.descr, emit)
 			}
 		}
+		// derived companions: raw file and IPv6 file built from the test's own Netspoc code, and
+		// the main file reduced while the companion keeps the original
+		if main, ok := b.files["code/router"]; ok && strings.TrimSpace(main) != "" {
+			for _, cv := range companionVariants(b.typ, main) {
+				for _, slot := range []string{"code/router.raw", "code/ipv6/router"} {
+					cv, slot := cv, slot
+					drcCases(b, func() map[string]string {
+						f := cloneFiles(b.files)
+						f["code/router"] = cv.main
+						f[slot] = cv.comp
+						return f
+					}, "companion", fmt.Sprintf("%s := %s", slot, cv.descr), emit)
+				}
+			}
+		}
 		// garbage info files for this test's file set (few)
 		if bi%40 == 0 {
 			for gi, g := range []string{"NO_JSON\n", "", "{", "[]", "null", "{\"model\": 7}", "{\"model\": \"IOS\", \"ip_list\": 1}", "{\"model\":\"" + b.typ + "\"}x", "\x00"} {
@@ -582,11 +689,11 @@ func wrapperCases(emit func(*c20Case)) {
 					continue
 				}
 				files := map[string]string{
-					".netspoc-approve":            conf,
-					"credentials":                 "* admin secret\n",
+					".netspoc-approve":             conf,
+					"credentials":                  "* admin secret\n",
 					"policies/p1/code/router":      "ip route 10.0.0.0 255.0.0.0 10.11.22.33\n",
 					"policies/p1/code/router.info": info,
-					"status/router":               st,
+					"status/router":                st,
 				}
 				emit(&c20Case{Prog: "do-approve", Args: []string{action, "router"}, Files: files,
 					Links: map[string]string{"policies/current": "p1"}, Dirs: []string{"lock", "status", "history", "policies/p1/log"},
@@ -597,11 +704,11 @@ func wrapperCases(emit func(*c20Case)) {
 	for si, st := range statusGarbage {
 		for _, pol := range []string{"p1", "p0"} {
 			files := map[string]string{
-				".netspoc-approve":       conf,
-				"policies/p1/code/router": "ip route 10.0.0.0 255.0.0.0 10.11.22.33\n",
-				"policies/p0/code/router": "ip route 10.0.0.0 255.0.0.0 10.11.22.34\n",
+				".netspoc-approve":             conf,
+				"policies/p1/code/router":      "ip route 10.0.0.0 255.0.0.0 10.11.22.33\n",
+				"policies/p0/code/router":      "ip route 10.0.0.0 255.0.0.0 10.11.22.34\n",
 				"policies/p1/code/router.info": "NO_JSON",
-				"status/router":          strings.ReplaceAll(st, "p0", pol),
+				"status/router":                strings.ReplaceAll(st, "p0", pol),
 			}
 			emit(&c20Case{Prog: "missing-approve", Args: nil, Files: files,
 				Links: map[string]string{"policies/current": "p1"}, Dirs: []string{"status"},
